@@ -1,6 +1,7 @@
 package props
 
 import (
+	"errors"
 	"fmt"
 	"strconv"
 
@@ -124,6 +125,8 @@ func checkC13(run *mon.Run, rng *mon.Rand, thorough bool) {
 	run.Extra["dfs_nodes"] = d.nodes
 	run.Sample(map[string]interface{}{"dfs_path_example": []string{"genesis validators=1 max=3 retention=3", "add(op2,key2) -> ok", "remove(op2) -> ok", "end_block", "add(op2,key2)"}})
 
+	c13Genesis(run, rng.Split(), pick(thorough, 150, 1500))
+
 	// ---- random longer histories ----
 	hist := pick(thorough, 12, 150)
 	for h := 0; h < hist && !run.TooMany(); h++ {
@@ -198,4 +201,112 @@ func c13Random(run *mon.Run, rng *mon.Rand, steps int, sample bool) {
 	if sample {
 		run.Sample(map[string]interface{}{"random_history_tail": tail(w.path, 25)})
 	}
+}
+
+// c13Genesis: "starting from any valid genesis validator set" — valid is what the module's own ValidateGenesis accepts.
+// Lists over operators 1..3 x keys 1..3 x powers {-1, 0, 1, 3} (all lists of length <= 2, sampled lists of length 3 and 4)
+// are offered; every accepted one with a positive-power validator is started and driven through a short script, with
+// the engine / state / index comparison after the genesis batch and after every block.
+func c13Genesis(run *mon.Run, rng *mon.Rand, samples int) {
+	run.Declare("C13.accepted_genesis_starts_consistent", 10)
+	type gv struct {
+		op, key int
+		power   int64
+	}
+	powers := []int64{-1, 0, 1, 3}
+	var all []gv
+	for op := 1; op <= 3; op++ {
+		for key := 1; key <= 3; key++ {
+			for _, p := range powers {
+				all = append(all, gv{op, key, p})
+			}
+		}
+	}
+	var lists [][]gv
+	for _, a := range all {
+		lists = append(lists, []gv{a})
+		for _, b := range all {
+			lists = append(lists, []gv{a, b})
+		}
+	}
+	for i := 0; i < samples; i++ {
+		l := []gv{mon.Pick(rng, all), mon.Pick(rng, all), mon.Pick(rng, all)}
+		if rng.Bool() {
+			l = append(l, mon.Pick(rng, all))
+		}
+		lists = append(lists, l)
+	}
+	accepted, refused := 0, 0
+	for li, l := range lists {
+		if run.TooMany() {
+			break
+		}
+		if li >= 36 && li < 36+36*36 && (li+rng.Intn(7))%4 != 0 && samples < 1000 {
+			continue // quick tier: a quarter of the pairs, chosen by the seed
+		}
+		var gvals []opchildtypes.Validator
+		positive := 0
+		desc := ""
+		ops := map[int]bool{}
+		for _, x := range l {
+			ops[x.op] = true
+		}
+		if len(ops) != len(l) {
+			continue // validators are identified by their operator: a list naming one operator twice is not a validator set
+		}
+		for _, x := range l {
+			k := NewValKey(x.key)
+			k.Operator = NewValKey(x.op).Operator
+			v := k.Validator()
+			v.ConsPower = x.power
+			gvals = append(gvals, v)
+			if x.power > 0 {
+				positive++
+			}
+			desc += fmt.Sprintf("(op%d,key%d,power %d)", x.op, x.key, x.power)
+		}
+		if positive == 0 {
+			continue
+		}
+		e, err := newL2EnvGen(L2EnvOpts{MaxValidators: 4, Historical: 3}, gvals)
+		run.Evaluations++
+		if errors.Is(err, ErrGenesisRefused) {
+			refused++
+			continue
+		}
+		accepted++
+		w := &valWorld{run: run, e: e, pfx: "C13", m: &valModel{removedThisBlock: map[string]bool{}, mustHaveHist: map[int64]bool{}, lastBonded: map[string]int64{}}}
+		w.logf("genesis validators %s accepted by ValidateGenesis", desc)
+		if !run.Check("C13.accepted_genesis_starts_consistent", err == nil, "val.genesis_batch_refused", w.path, "genesis %s passes ValidateGenesis, but starting from it fails: %v", desc, err) {
+			continue
+		}
+		w.compareSets("genesis")
+		if err, pv := e.L2.BeginBlock(1e9); err != nil || pv != nil {
+			run.Fail("C13.block_processing_never_aborts", "val.beginblock_failed", w.path, "first BeginBlocker failed: %v %v", err, pv)
+			continue
+		}
+		w.m.mustHaveHist[e.L2.Ctx.BlockHeight()] = true
+		// a short script touching every operator and key named in the genesis
+		alive := w.endBlock()
+		for i := 1; alive && i <= 3; i++ {
+			k := NewValKey(i)
+			k.Operator = NewValKey(4).Operator
+			if res := w.addValidator(k, 4, i); res.Class == sim.OK {
+				alive = w.endBlock()
+				if alive {
+					w.removeValidator(k.Operator, 4)
+					alive = w.endBlock()
+				}
+			}
+		}
+		for i := 1; alive && i <= 3; i++ {
+			if w.removeValidator(NewValKey(i).Operator, i).Class == sim.OK {
+				alive = w.endBlock()
+			}
+		}
+		nonpos := len(l) - positive
+		run.Distinct(fmt.Sprintf("genesis/len%d/nonpositive%d", len(l), nonpos))
+	}
+	run.Extra["genesis_lists_accepted"] = accepted
+	run.Extra["genesis_lists_refused"] = refused
 }
